@@ -18,6 +18,7 @@ from __future__ import annotations
 
 import collections
 import datetime
+import functools
 import threading
 from typing import Optional
 
@@ -57,6 +58,29 @@ def _get_current_time() -> timestamp_pb2.Timestamp:
 
 StudyResource = resources.StudyResource
 TrialResource = resources.TrialResource
+
+
+def _datastore_errors_to_status(rpc_method):
+  """Reports datastore errors escaping an RPC method as gRPC status codes.
+
+  Only in the remote case (a gRPC context is given): there, an uncaught
+  NotFoundError / AlreadyExistsError would reach the client as status UNKNOWN.
+  In the local case the error itself is raised, as before.
+  """
+
+  @functools.wraps(rpc_method)
+  def wrapper(self, request, context=None):
+    try:
+      return rpc_method(self, request, context)
+    except (
+        custom_errors.NotFoundError,
+        custom_errors.AlreadyExistsError,
+    ) as e:
+      if context is None:
+        raise
+      grpc_util.handle_exception(e, context)
+
+  return wrapper
 
 
 # TODO: remove context = None
@@ -142,6 +166,7 @@ class VizierServicer(vizier_service_pb2_grpc.VizierServiceServicer):
         study_pb2.Study.State.STATE_UNSPECIFIED,
     )
 
+  @_datastore_errors_to_status
   def CreateStudy(
       self,
       request: vizier_service_pb2.CreateStudyRequest,
@@ -205,6 +230,7 @@ class VizierServicer(vizier_service_pb2_grpc.VizierServiceServicer):
       self.datastore.create_study(study)
     return study
 
+  @_datastore_errors_to_status
   def GetStudy(
       self,
       request: vizier_service_pb2.GetStudyRequest,
@@ -213,6 +239,7 @@ class VizierServicer(vizier_service_pb2_grpc.VizierServiceServicer):
     """Gets a Study by name. If the study does not exist, return error."""
     return self.datastore.load_study(request.name)
 
+  @_datastore_errors_to_status
   def ListStudies(
       self,
       request: vizier_service_pb2.ListStudiesRequest,
@@ -222,6 +249,7 @@ class VizierServicer(vizier_service_pb2_grpc.VizierServiceServicer):
     studies = self.datastore.list_studies(request.parent)
     return vizier_service_pb2.ListStudiesResponse(studies=studies)
 
+  @_datastore_errors_to_status
   def DeleteStudy(
       self,
       request: vizier_service_pb2.DeleteStudyRequest,
@@ -231,6 +259,7 @@ class VizierServicer(vizier_service_pb2_grpc.VizierServiceServicer):
     self.datastore.delete_study(request.name)
     return empty_pb2.Empty()
 
+  @_datastore_errors_to_status
   def SetStudyState(
       self,
       request: vizier_service_pb2.SetStudyStateRequest,
@@ -242,6 +271,7 @@ class VizierServicer(vizier_service_pb2_grpc.VizierServiceServicer):
       self.datastore.update_study(study)
     return study
 
+  @_datastore_errors_to_status
   def SuggestTrials(
       self,
       request: vizier_service_pb2.SuggestTrialsRequest,
@@ -469,6 +499,7 @@ class VizierServicer(vizier_service_pb2_grpc.VizierServiceServicer):
       self.datastore.update_suggestion_operation(output_op)
       return output_op
 
+  @_datastore_errors_to_status
   def GetOperation(
       self,
       request: operations_pb2.GetOperationRequest,
@@ -477,6 +508,7 @@ class VizierServicer(vizier_service_pb2_grpc.VizierServiceServicer):
     """Gets the latest state of a SuggestTrials() long-running operation."""
     return self.datastore.get_suggestion_operation(request.name)
 
+  @_datastore_errors_to_status
   def CreateTrial(
       self,
       request: vizier_service_pb2.CreateTrialRequest,
@@ -503,6 +535,7 @@ class VizierServicer(vizier_service_pb2_grpc.VizierServiceServicer):
       self.datastore.create_trial(trial)
     return trial
 
+  @_datastore_errors_to_status
   def GetTrial(
       self,
       request: vizier_service_pb2.GetTrialRequest,
@@ -511,6 +544,7 @@ class VizierServicer(vizier_service_pb2_grpc.VizierServiceServicer):
     """Gets a Trial."""
     return self.datastore.get_trial(request.name)
 
+  @_datastore_errors_to_status
   def ListTrials(
       self,
       request: vizier_service_pb2.ListTrialsRequest,
@@ -520,6 +554,7 @@ class VizierServicer(vizier_service_pb2_grpc.VizierServiceServicer):
     list_of_trials = self.datastore.list_trials(request.parent)
     return vizier_service_pb2.ListTrialsResponse(trials=list_of_trials)
 
+  @_datastore_errors_to_status
   def AddTrialMeasurement(
       self,
       request: vizier_service_pb2.AddTrialMeasurementRequest,
@@ -567,6 +602,7 @@ class VizierServicer(vizier_service_pb2_grpc.VizierServiceServicer):
 
   # TODO: Auto selection defaults to the last measurement.
   # Add support for "best measurement" behavior.
+  @_datastore_errors_to_status
   def CompleteTrial(
       self,
       request: vizier_service_pb2.CompleteTrialRequest,
@@ -613,6 +649,7 @@ class VizierServicer(vizier_service_pb2_grpc.VizierServiceServicer):
       self.datastore.update_trial(trial)
     return trial
 
+  @_datastore_errors_to_status
   def DeleteTrial(
       self,
       request: vizier_service_pb2.DeleteTrialRequest,
@@ -630,6 +667,7 @@ class VizierServicer(vizier_service_pb2_grpc.VizierServiceServicer):
     return empty_pb2.Empty()
 
   # TODO: This currently uses the same algorithm as suggestion.
+  @_datastore_errors_to_status
   def CheckTrialEarlyStoppingState(
       self,
       request: vizier_service_pb2.CheckTrialEarlyStoppingStateRequest,
@@ -834,6 +872,7 @@ class VizierServicer(vizier_service_pb2_grpc.VizierServiceServicer):
           should_stop=output_operation.should_stop
       )
 
+  @_datastore_errors_to_status
   def StopTrial(
       self,
       request: vizier_service_pb2.StopTrialRequest,
@@ -879,6 +918,7 @@ class VizierServicer(vizier_service_pb2_grpc.VizierServiceServicer):
         grpc_util.handle_exception(e, context)
     return trial
 
+  @_datastore_errors_to_status
   def ListOptimalTrials(
       self,
       request: vizier_service_pb2.ListOptimalTrialsRequest,
@@ -954,6 +994,7 @@ class VizierServicer(vizier_service_pb2_grpc.VizierServiceServicer):
         optimal_trials=optimal_trials
     )
 
+  @_datastore_errors_to_status
   def UpdateMetadata(
       self,
       request: vizier_service_pb2.UpdateMetadataRequest,
